@@ -16,7 +16,7 @@ from bctmc.tally import Tally
 PROPERTY = 'C03'
 RULE = ('a fixed family of ~100 structured graphs on 7-10 nodes (bctmc/named.py: paths, cycles, stars, wheels, cliques, '
         'bipartite, ladders, trees, unions with isolated nodes, DAGs, tournaments; binary, lengths {1,2},{1,2,3}, near-tie) and '
-        'every labelled digraph / undirected graph of the stated families (binary n<=4 dir, n<=5 und, and all 2^20 five-node digraphs for distance_bin/breadthdist/reachdist; '
+        'every labelled digraph / undirected graph of the stated families (binary n<=4 dir, n<=5 und, and the five-node digraphs with <= 8 connections (thorough: all 2^20) for distance_bin/breadthdist/reachdist; '
         'lengths {1,2,3} and the near-tie alphabet {1, 2, 2+2^-20} (1+1 is shorter than 2+2^-20 by less than any common tolerance) on 3-node digraphs and 4-node graphs; weights {1,1/2,1/4} for inv/log; thorough adds '
         'lengths {1,2} on all 4-node digraphs and 5-node graphs, binary n=6 und, n=5 dir with <=... see families '
         'counter); non-trivial = graph with an unreachable ordered pair and a pair at distance >= 2 hops, or '
@@ -33,11 +33,11 @@ FAMILIES = {
     'bin_dir4': ('bin', True, 4, BIN, 'q'),
     'bin_dir5_reach': ('reach', True, 5, BIN, 'q'),      # all 2^20 digraphs, the three binary reachability routines only
     'bin_und3': ('bin', False, 3, BIN, 'q'), 'bin_und4': ('bin', False, 4, BIN, 'q'),
-    'bin_und5': ('bin', False, 5, BIN, 'q'), 'bin_und6': ('bin', False, 6, BIN, 't'),
+    'bin_und5': ('bin', False, 5, BIN, 'q'), 'bin_und6': ('bin', False, 6, BIN, 'q'),
     'len_dir3': ('len', True, 3, (0, 1, 2, 3), 'q'),
     'len_und4': ('len', False, 4, (0, 1, 2, 3), 'q'),
     'len_dir4': ('len', True, 4, (0, 1, 2), 't'),
-    'len_und5': ('len', False, 5, (0, 1, 2), 't'),
+    'len_und5': ('len', False, 5, (0, 1, 2), 'q'),
     'neartie_dir3': ('len', True, 3, (0, 1, 2, 2 + 2.0 ** -20), 'q'),
     'neartie_und4': ('len', False, 4, (0, 1, 2, 2 + 2.0 ** -20), 'q'),
     'wt_dir3': ('wt', True, 3, (0, 1, 0.5, 0.25), 'q'),
@@ -50,7 +50,11 @@ NAMED = {'named:bin_und': 'bin', 'named:bin_dir': 'bin', 'named:len_und': 'len',
          'named:neartie_und': 'len', 'named:neartie_dir': 'len'}
 
 
+THOROUGH = [False]
+
+
 def plan(ctx):
+    THOROUGH[0] = ctx.thorough
     units = []
     for nm in NAMED:
         tot = len(named.family(nm.split(':')[1]))
@@ -235,6 +239,8 @@ def work(unit):
     name, a, b = unit
     t = Tally(PROPERTY)
     for idx in range(a, b):
+        if name == 'bin_dir5_reach' and not THOROUGH[0] and bin(idx).count('1') > 8:
+            continue            # quick: the 263 950 five-node digraphs with at most 8 connections; thorough: all 2^20
         X = graph(name, idx)
         case = {'family': name, 'index': idx, 'X': X}
         if name in NAMED:
